@@ -432,3 +432,97 @@ func execC01Repeat(t *testing.T, c C01Repeat) (v Verdict) {
 }
 
 func TestC01Repeat(t *testing.T) { checkProp(t, "C01", "repeat", genC01Repeat, execC01Repeat) }
+
+// ---- C01 long-lived connection: calls that stay in flight while hundreds of others come and go ----------------
+
+// C01Long: 1..3 slow unary calls are in flight on a connection while Quick other calls (300..1500) complete on it, a
+// few at a time; then the slow handlers are released. Every call - the slow ones included - returns its own handler's
+// reply to its own request, and every handler ran once.
+type C01Long struct {
+	Slow  int  `json:"slow"`
+	Quick int  `json:"quick"`
+	Wave  int  `json:"wave"`
+	Ser   bool `json:"ser"`
+	Stats bool `json:"stats,omitempty"`
+}
+
+func genC01Long(t *rapid.T) C01Long {
+	return C01Long{Slow: rapid.IntRange(1, 3).Draw(t, "slow"), Quick: rapid.SampledFrom([]int{300, 520, 1100, 1500}).Draw(t, "quick"), Wave: rapid.IntRange(1, 6).Draw(t, "wave"), Ser: rapid.Bool().Draw(t, "ser"), Stats: rapid.IntRange(0, 3).Draw(t, "stats") == 0}
+}
+
+func execC01Long(t *testing.T, c C01Long) (v Verdict) {
+	slowOK, quickOK, slowRuns, quickRuns := 0, 0, 0, 0
+	var mu sync.Mutex
+	slowDone := 0
+	res := kit.Bubble(t, func() {
+		svc := kit.NewSvc()
+		gate := make(chan struct{})
+		svc.Unary("slow", func(ctx context.Context, req []byte) ([]byte, error) {
+			mu.Lock()
+			slowRuns++
+			mu.Unlock()
+			<-gate
+			return append([]byte("slow:"), req...), nil
+		})
+		svc.Unary("q", func(ctx context.Context, req []byte) ([]byte, error) {
+			mu.Lock()
+			quickRuns++
+			mu.Unlock()
+			return append([]byte("q:"), req...), nil
+		})
+		w := kit.NewWorld(kit.Topo{Kind: "direct", Serialize: c.Ser, Clients: 1, Stats: c.Stats}, svc, nil, nil)
+		w.Links[0].Tap = nil
+		var swg sync.WaitGroup
+		for i := 0; i < c.Slow; i++ {
+			i := i
+			swg.Add(1)
+			go func() {
+				defer swg.Done()
+				r, err := kit.Invoke(context.Background(), w.Conn(0), "slow", []byte{byte(i)})
+				mu.Lock()
+				slowDone++
+				if err == nil && bytes.Equal(r, append([]byte("slow:"), byte(i))) {
+					slowOK++
+				}
+				mu.Unlock()
+			}()
+		}
+		kit.Settle()
+		for n := 0; n < c.Quick; {
+			var wg sync.WaitGroup
+			for k := 0; k < c.Wave && n < c.Quick; k++ {
+				req := []byte{byte(n >> 8), byte(n)}
+				n++
+				wg.Add(1)
+				go func() {
+					defer wg.Done()
+					r, err := kit.Invoke(context.Background(), w.Conn(0), "q", req)
+					if err == nil && bytes.Equal(r, append([]byte("q:"), req...)) {
+						mu.Lock()
+						quickOK++
+						mu.Unlock()
+					}
+				}()
+			}
+			wg.Wait()
+		}
+		close(gate)
+		kit.Settle()
+		w.Shutdown() // whatever is still waiting is released by the end of the connection
+		kit.Settle()
+		swg.Wait()
+	})
+	if res.Panic != nil {
+		v.failf("panic: %v\n%s", res.Panic, res.Stack)
+	}
+	if quickOK != c.Quick || quickRuns != c.Quick {
+		v.failf("%d of %d quick calls returned their handler's reply (handler runs: %d)", quickOK, c.Quick, quickRuns)
+	}
+	if slowOK != c.Slow || slowRuns != c.Slow {
+		v.failf("%d of %d calls that were in flight while %d other calls completed on the connection returned their handler's reply (handler runs %d, calls returned %d)", slowOK, c.Slow, c.Quick, slowRuns, slowDone)
+	}
+	v.Info = kit.CaseInfo{Labels: []string{"long-lived", fmt.Sprintf("long.quick>=1000=%v", c.Quick >= 1000)}, NonTrivial: true, Key: fmt.Sprintf("%+v", c), Sample: c}
+	return
+}
+
+func TestC01Long(t *testing.T) { checkProp(t, "C01", "long-lived", genC01Long, execC01Long) }
